@@ -244,4 +244,11 @@ class Bip32PathParser:
         if not path_elem.isnumeric():
             raise Bip32PathError(f"Invalid path element ({path_elem})")
 
-        return int(path_elem) if not is_hardened else Bip32KeyIndex.HardenIndex(int(path_elem))
+        # isnumeric() also admits characters int() cannot convert (e.g. superscripts, fractions, CJK numerals)
+        # and int() refuses too many digits: report these as invalid path elements as well
+        try:
+            elem_idx = int(path_elem)
+        except ValueError as ex:
+            raise Bip32PathError(f"Invalid path element ({path_elem})") from ex
+
+        return elem_idx if not is_hardened else Bip32KeyIndex.HardenIndex(elem_idx)
